@@ -52,6 +52,20 @@ def sysComp : Comp where
         match kind, rest with
         | "keep", [] => some (.keep t)
         | "snap", [d, x] => some (.snap t (nat! d) (fl x))
+        | "snapauto", ps =>
+          -- the snapped direction is not recorded in a run: it is the direction in which the committed position of the active
+          -- unit differs from its time-sliced position (none: the boundary value IS the sliced value); the snapped value is an
+          -- oracle input as for `snap`
+          let p := fls ps
+          let sl := s.us.map (timeSlice Ops.float s.L t)
+          match activeIdx sl with
+          | some a =>
+            match sl[a]? with
+            | some ua =>
+              let d := ((List.range p.length).find? (fun k => (ua.pos.getD k 0.0).toBits != (p.getD k 0.0).toBits)).getD 0
+              some (.snap t d (p.getD d 0.0))
+            | none => none
+          | none => none
         | "lift", [b] => some (.lift t (nat! b))
         | "start", a :: v => some (.start t (nat! a) (fls v))
         | "eoc", a :: v => some (.endOfChain t (nat! a) (fls v))
